@@ -853,20 +853,20 @@ class OverlayStore(Store):
                 return self.fallback.get_metadata(key)
         raise KeyNotFoundStoreException(key=key, store=self)
 
+    def restore(self, key):
+        "Forget the removal of the key and of its parent directories."
+        while key not in ("", None):
+            self.removed.discard(key)
+            key = parent_key(key)
+
     def store(self, key, data, metadata):
-        try:
-            self.removed.remove(key)
-        except KeyError:
-            pass
+        self.restore(key)
         self.overlay.store(key, data, metadata)
         self.on_data_changed(key)
         self.on_metadata_changed(key)
 
     def store_metadata(self, key, metadata):
-        try:
-            self.removed.remove(key)
-        except KeyError:
-            pass
+        self.restore(key)
         if not self.overlay.contains(key) and self.fallback.contains(key):
             self.overlay.store(
                 key, self.fallback.get_bytes(key), self.fallback.get_metadata(key)
@@ -929,8 +929,7 @@ class OverlayStore(Store):
         return [x for x in sorted(d) if key + "/" + x not in self.removed]
 
     def makedir(self, key):
-        if key in self.removed:
-            self.removed.remove(key)
+        self.restore(key)
         self.overlay.makedir(key)
         self.on_data_changed(key)
         self.on_metadata_changed(key)
